@@ -490,6 +490,8 @@ def rnd_spec(r, side):
                 m['u'] = ['other']
             if 'r' not in m and not m['n'] and r.random() < 0.6:
                 m['a'] = None
+    if side == 'recv' and (4 in m['n'] or 4 in m['w']) and r.random() < 0.5:
+        m['dirty'] = True   # the /15 prefix arrives with a non-zero trailing bit
     if side == 'send' and (m.get('r', [''])[0] == 'fs' or m.get('u', [''])[0] == 'fs') and r.random() < 0.4:
         m['rev'] = True     # the same flowspec rules, their JSON members written in the opposite order
     if m['a'] is None and (m['n'] or 'r' in m):
